@@ -306,7 +306,7 @@ def pipeline(args, scratch):
     imds = mockhost.MockHost("169.254.169.254", 80, lambda req: hostdocs.own_calls_handler("imds", req) or {"status": 200, "body": b"{}"}, name="imds")
     ws = wsmock.WsMock(key_dir=KEY_DIR, rng=r)
     ws.version = "1.0"; ws.state_v1 = "WireserverAndImds"
-    sh = shimmod.Shim(scratch + "/shim", runtime="multi:4", verif_dir=vdir, env={"GPA_VERIF_DELAY": "get_key:200:300", "GPA_VERIF_DELAY_SEED": str(args["shard"] + 3)})
+    sh = shimmod.Shim(scratch + "/shim", runtime="multi:4", verif_dir=vdir, env={"GPA_VERIF_DELAY": "get_key:200:300,actor_key_keeper:500:3000", "GPA_VERIF_DELAY_SEED": str(args["shard"] + 3)})
     client_bytes = []
     try:
         sh.call("init", log_dir="/var/log/azure-proxy-agent", log_level="Trace")
@@ -360,7 +360,8 @@ def pipeline(args, scratch):
                 cut = len(raw) if k % 3 else r.randrange(1, len(raw))
                 c.s.sendall(raw[:cut])
                 if k % 2:
-                    time.sleep(r.random() * 0.0006)
+                    # anywhere in the handler's life time (the actors take 0-3 ms per message with the delay points on)
+                    time.sleep(r.random() * r.choice([0.0006, 0.002, 0.004, 0.006]))
                 c.close(abort=True)
                 aborted += 1
             except OSError:
@@ -426,7 +427,7 @@ def run(tier, rep):
         args.append({"shard": i, "tier": tier, "script": script, "strace": i % 2 == 0, "preexisting_dir": i % 3 == 1, "chown_fault": i % 4 == 0, "chown_delay": i % 4 == 2})
     for res in sandbox.run_many("vf.props.c12", "real_history", args, workers=8, timeout=600 if tier == "quick" else 5400):
         rep.merge_worker(res)
-    pargs = [{"shard": i, "tier": tier, "rounds": 8 if tier == "quick" else 40, "aborts": 4000 if tier == "quick" else 30000} for i in range(4 if tier == "quick" else 8)]
+    pargs = [{"shard": i, "tier": tier, "rounds": 8 if tier == "quick" else 40, "aborts": 3000 if tier == "quick" else 30000} for i in range(4 if tier == "quick" else 8)]
     for res in sandbox.run_many("vf.props.c12", "pipeline", pargs, workers=8, timeout=600 if tier == "quick" else 5400):
         rep.merge_worker(res)
     rep.assumptions += ["keys the mock host generated but never sent to the guest are not secrets of interest",
